@@ -195,10 +195,10 @@ func (r *chunkReader) Read(p []byte) (int, error) {
 }
 
 type c16mon struct {
-	c     *fw.Ctx
-	seen  [42]bool
-	sc    *shell.Scanner // reused through Reset
-	shIn  []string
+	c      *fw.Ctx
+	seen   [42]bool
+	sc     *shell.Scanner // reused through Reset
+	shIn   []string
 	shWant [][]string
 }
 
